@@ -657,6 +657,9 @@ def refine_droplet(
     if vmax is None:
         vmax = np.max(data_mask)
     vrng = vmax - vmin
+    # measure deviations in units of the intensity range, so the accuracy of the fit (which
+    # is controlled by absolute tolerances) does not depend on the contrast of the image
+    scale = abs(vrng) if vrng != 0 else 1.0
 
     if adjust_values and vrng != 0:
         # fit intensities in addition to all droplet parameters
@@ -673,7 +676,7 @@ def refine_droplet(
             droplet.data = unstructured_to_structured(data_flat, dtype=dtype)
             droplet.check_data()
             img = vmin + vrng * droplet._get_phase_field(phase_field.grid)[mask]
-            return img - data_mask
+            return (img - data_mask) / scale
 
         # do the least square optimization
         result = optimize.least_squares(
@@ -691,7 +694,7 @@ def refine_droplet(
             droplet.data = unstructured_to_structured(data_flat, dtype=dtype)
             droplet.check_data()
             img = vmin + vrng * droplet._get_phase_field(phase_field.grid)[mask]
-            return img - data_mask
+            return (img - data_mask) / scale
 
         # do the least square optimization
         result = optimize.least_squares(
